@@ -327,13 +327,33 @@ def run(repo: Repo, chk: Check, thorough: bool = False) -> None:
     # target forms of an assignment statement that bind names (oracle: the grammar - Name, Tuple, List, Starred, nested): each one must be
     # taken apart down to its names, otherwise the variables it binds are missing
     va = repo.func(f'{MV}.visit_Assign')
-    reach = [va] + [g for g in repo.funcs.values() if g.cls is va.cls and any(call_name(c) == g.name and isinstance(c.func, ast.Attribute) and dotted(c.func.value) == 'self'
-                                                                             for c in calls_in(va)) and 'Unpack' in g.name or g.name == '_handleUnpackingTarget' and g.cls is va.cls]
-    handled_t = {x.attr for g in reach for c in calls_in(g) if call_name(c) == 'isinstance' and len(c.args) == 2 for x in ast.walk(c.args[1])
-                 if isinstance(x, ast.Attribute) and dotted(x.value) == 'ast'}
+    def _ast_classes(t: ast.AST) -> Set[str]:
+        return {x.attr for c in ast.walk(t) if isinstance(c, ast.Call) and call_name(c) == 'isinstance' and len(c.args) == 2 for x in ast.walk(c.args[1])
+                if isinstance(x, ast.Attribute) and dotted(x.value) == 'ast'}
+    # helpers: self-recursive methods of the visitor called from visit_Assign (they take a target apart level by level)
+    helpers = [g for g in repo.funcs.values() if g.cls is va.cls and g is not va and
+               any(call_name(c) == g.name and isinstance(c.func, ast.Attribute) and dotted(c.func.value) == 'self' for c in calls_in(va)) and
+               any(call_name(c) == g.name and isinstance(c.func, ast.Attribute) and dotted(c.func.value) == 'self' for c in calls_in(g))]
+    cf_va = CFG(va)
     for tcls in ('Tuple', 'List', 'Starred'):
-        chk.ob('R03.9', f'{MV}.visit_Assign :: ast.{tcls} targets are taken apart', tcls in handled_t,
-               'unpacked down to the names' if tcls in handled_t else
+        if helpers:
+            inner = any(tcls in {a for n in h.walk() for a in _ast_classes(n)} for h in helpers)
+            # the route into the helper: a dominating isinstance test over ast classes must let this form through (a Starred is only legal nested)
+            routed = True
+            if tcls != 'Starred':
+                routed = False
+                for c in calls_in(va):
+                    if not any(call_name(c) == h.name for h in helpers):
+                        continue
+                    gate = [x for x, pol in cf_va.dominating_tests(cf_va.stmt_of(c)) if pol and _ast_classes(x)]
+                    if all(tcls in _ast_classes(x) for x in gate):
+                        routed = True
+            ok9 = inner and routed
+        else:
+            # no level-by-level helper: visit_Assign itself must name every form (nested forms then stay undecided: the rule demands the helper shape)
+            ok9 = tcls in {a for n in va.walk() for a in _ast_classes(n)}
+        chk.ob('R03.9', f'{MV}.visit_Assign :: ast.{tcls} targets are taken apart', ok9,
+               'unpacked down to the names' if ok9 else
                f'an assignment whose target is an ast.{tcls} (`[c, d] = ...`, `h, *rest = ...`, nested `e, (f, g) = ...`) binds names that are never documented',
                va.loc)
     chk.require('R03.9', 3)
